@@ -327,6 +327,16 @@ GROUPS = {
         functions=['serverside', 'ServerChallenge::{new, message_to_sign}', 'ClientAuth::{new, verify}', 'KeyMaterialClientAuth::{new, verify}', 'read_frame', 'deserialize_frame',
                    'SuccessfulAuthentication::{authorize_if, accept, deny}'],
     ),
+    # second line behind the Verus unit router (dispatch part)
+    'router_bx': dict(
+        unit='router.rs', props=['C40'],
+        bounds=dict(quick=['1', '0'], thorough=['1', '0']),
+        space='one incoming connection through the accept arm for every combination of: no filter / filter verdict accept, retry, reject, ignore x remote address validated or not x '
+              'Incoming::accept failing or not x negotiated protocol alpha / beta (both registered) / gamma / empty / none x handshake failing or not; plus the closed-endpoint case '
+              '(argument {0} unused)',
+        nontrivial='combinations with a filter',
+        functions=['RouterBuilder::spawn (the `endpoint.accept()` arm of the run loop)', 'handle_connection', 'ProtocolMap::{get, insert}'],
+    ),
     # second line behind the Verus unit builder_bind
     'builder_bind_bx': dict(
         unit='builder_bind.rs', props=['C20'], takes_deferred=True,
